@@ -314,8 +314,13 @@ class C09Engine(Engine):
         raise ValueError(op)
 
     # ------------------------------------------------------------ one step
-    def step(self, op: List[Any], idx: int) -> str:
+    def step(self, op: List[Any], idx: int, lookups: bool = True) -> str:
         """-> 'veto' | 'accepted' | 'rejected'; raises Violation."""
+        if op and isinstance(op[-1], dict) and "_lk" in op[-1]:
+            # replay: the original run probed the lookups after a seeded subset of the operations only (a lookup
+            # is itself an access the implementation may react to, e.g. by rebuilding an index)
+            lookups = op[-1]["_lk"]
+            op = op[:-1]
         e = self.expect(op)
         if e[0] == "veto":
             self.count("veto:" + e[1])
@@ -381,7 +386,8 @@ class C09Engine(Engine):
         except Violation as v:
             v.signature = f"state-after-{status}:{e[1] if e[0] != 'accept' else op[0]}"
             raise
-        self.check_lookups(ctx)
+        if lookups:
+            self.check_lookups(ctx)
         self.trace.append(f"{op[0]}:{status}")
         return status
 
@@ -566,7 +572,9 @@ def run_ops(env: Env, world_json: Dict[str, Any], ops: List[List[Any]]) -> Dict[
         eng.check_state({"index": -1, "op": "initial"})
         eng.check_lookups({"index": -1, "op": "initial"})
         for idx, op in enumerate(ops):
-            eng.step(op, idx)
+            eng.step(op, idx, True if idx == len(ops) - 1 else True)
+        if ops:
+            eng.check_lookups({"index": len(ops) - 1, "op": "final"})
     except Violation as v:
         res["violation"] = {"property": v.prop, "oracle": v.oracle, "signature": v.signature, "detail": v.detail}
     res["counters"] = eng.counters
@@ -594,15 +602,21 @@ def generate(env: Env, rseed: int, thorough: bool) -> Tuple[Dict[str, Any], List
         eng.check_state({"index": -1, "op": "initial"})
         eng.check_lookups({"index": -1, "op": "initial"})
         tries = 0
+        p_lookup = g.choice([1.0, 1.0, 0.5, 0.2, 0.05])
+        lk = True
         while len(ops) < nops and tries < nops * 6:
             tries += 1
             op = draw_op(g, eng, weights)
-            st = eng.step(op, len(ops))
+            lk = g.random() < p_lookup
+            st = eng.step(op, len(ops), lk)
             if st != "veto":
-                ops.append(op)
+                ops.append(op + [{"_lk": lk}])
+        op = []
+        if ops:
+            eng.check_lookups({"index": len(ops) - 1, "op": "final"})
     except Violation as v:
         if op:
-            ops.append(op)
+            ops.append(op + [{"_lk": lk}])
         res["violation"] = {"property": v.prop, "oracle": v.oracle, "signature": v.signature, "detail": v.detail}
     res["counters"] = eng.counters
     res["trace"] = eng.trace
